@@ -235,7 +235,7 @@ def run(report, forced=None):
                          (x[0] == "call" and x[2][0] in ("read", "readline", "seek", "tell"))]
                     # zipfile/tarfile members clamp seeks at EOF (as CPython's own ZipExtFile does)
                     s = [("open", "r")] + [("call", 0, x[2]) for x in s if x[0] == "call"
-                                           and not (x[2][0] == "seek" and (x[2][1] > 0 or x[2][2] == 1))]
+                                           and not (x[2][0] == "seek" and (x[2][1] != 0 or x[2][2] == 1))]
                     expect = fileio_case(c, s, d)
                     mdl = common.run_model(["file ref " + " ".join(enc_steps(c, s))])[0]
                 else:
